@@ -380,7 +380,10 @@ func (g *gen) bigBoundaries() []string {
 	one := big.NewInt(1)
 	for _, v := range []*big.Int{one, big.NewInt(127), big.NewInt(128), big.NewInt(255), big.NewInt(256),
 		new(big.Int).Sub(pow2(63), one), pow2(63), new(big.Int).Add(pow2(63), one),
-		new(big.Int).Sub(pow2(64), one), pow2(64), new(big.Int).Add(pow2(64), one)} {
+		new(big.Int).Sub(pow2(64), one), pow2(64), new(big.Int).Add(pow2(64), one),
+		// amounts are unbounded: around the 16 / 31 / 32 / 33 / 64-byte magnitudes and far beyond
+		new(big.Int).Sub(pow2(128), one), pow2(128), new(big.Int).Sub(pow2(248), one), pow2(248),
+		new(big.Int).Sub(pow2(256), one), pow2(256), new(big.Int).Add(pow2(256), one), pow2(264), pow2(512), pow2(520), pow2(2048)} {
 		add(v)
 	}
 	ten19, _ := new(big.Int).SetString("10000000000000000000", 10)
@@ -398,6 +401,14 @@ func (g *gen) randBigString() string {
 		b := make([]byte, 1+g.r.Intn(12))
 		g.r.Read(b)
 		b[0] |= 0x80
+		v := new(big.Int).SetBytes(b)
+		if g.r.Intn(2) == 0 {
+			v.Neg(v)
+		}
+		return v.String()
+	case 5: // long magnitudes: 20..200 bytes
+		b := make([]byte, 20+g.r.Intn(181))
+		g.r.Read(b)
 		v := new(big.Int).SetBytes(b)
 		if g.r.Intn(2) == 0 {
 			v.Neg(v)
